@@ -128,6 +128,19 @@ def handle (toks : List String) : Option String :=
     match parseCfg cfg, parseList parseSEntry scan, parseList parseDEntry dst with
     | some (cfg, nextIno), some scan, some dst => showResult (run cfg scan dst nextIno)
     | _, _, _ => "bad-op"
+  | ["engine.runf", cfg, scan, dst, faults] =>
+    -- faults: `;`-separated `<path>:<node|->`: the task at that path fails leaving the node (or nothing)
+    let parseFault (x : String) : Option (Path × Option DNode) :=
+      match x.splitOn ":" with
+      | [p, g] => do
+        let p ← parsePath p
+        if g == "-" then pure (p, none) else do let n ← parseDNode g; pure (p, some n)
+      | _ => none
+    match parseCfg cfg, parseList parseSEntry scan, parseList parseDEntry dst, parseList parseFault faults with
+    | some (cfg, nextIno), some scan, some dst, some fl =>
+      let flt : Faults := fun t => (fl.find? (·.1 == t.rel)).map (·.2)
+      showResult (runF cfg flt scan dst nextIno)
+    | _, _, _, _ => "bad-op"
   | ["engine.plan", cfg, scan, dst] =>
     match parseCfg cfg, parseList parseSEntry scan, parseList parseDEntry dst with
     | some (cfg, _), some scan, some dst =>
